@@ -76,12 +76,18 @@ def main(tier, seed):
         for k in range(n):
             p = rand_prog(rng, grammar=(k % 3 != 0)); i = rand_stdin(rng); cap = 400 if k % 10 else 2000
             cases.append("one %s %s %d" % (enc_prog(p), enc_text(i), cap)); srcs.append((p, i, cap))
-        impl = impl_exec(cases)
-        model = model_exec(cases)
-        spec = model_exec(cases, spec=True)
         feats = {"jumps_taken": 0, "input_read": 0, "ends": {}, "steps_total": 0, "max_steps": 0, "with_output": 0, "with_err": 0, "labels": 0, "return_heart_pending": 0}
         nshrunk = 0
-        for c, a, m, s, src in zip(cases, impl, model, spec, srcs):
+        first = {}
+        def traces():
+            # batch by batch: the traces of 60 000 programs at once took 10 GB
+            B = 6000
+            for b in range(0, len(cases), B):
+                cb = cases[b:b + B]
+                impl = impl_exec(cb); model = model_exec(cb); spec = model_exec(cb, spec=True)
+                if b == 0: first["impl"] = impl[:len(CORPUS) + 2]
+                for x in zip(cb, impl, model, spec, srcs[b:b + B]): yield x
+        for c, a, m, s, src in traces():
             if unjudged(a, m, s):
                 rep.count("skipped-resource-limit"); continue
             rep.count("execute_one-traces")
@@ -114,8 +120,8 @@ def main(tier, seed):
                 rep.violation("correspondence", {"what": "impl trace differs from the model trace (spec does not decide)", "case": c, "impl": a[:1500], "model": m[:1500]})
             if not unspecified and m != s:
                 rep.violation("obligation", {"what": "driver sanity: model and spec traces differ on a specified run", "case": c, "model": m[:800], "spec": s[:800]})
-        rep.sample({"case": cases[len(CORPUS) + 1], "impl": impl[len(CORPUS) + 1][:600]})
-        rep.sample({"case": cases[0], "impl": impl[0]})
+        rep.sample({"case": cases[len(CORPUS) + 1], "impl": first["impl"][len(CORPUS) + 1][:600]})
+        rep.sample({"case": cases[0], "impl": first["impl"][0]})
         extra = {"trace_features": feats}
     else:
         extra = {}
